@@ -1016,6 +1016,19 @@ def range_round(ctx: Ctx, batch: Batch, sk=None, scenario=None):
                 ctx.oracle_fail("PengBaoPublicData.check:inside-rejected", f"honest proof for {value} in [{a},{b}] "
                                                                            f"scores {yes}", rp)
             add_rcheck(ctx, batch, pk, att.publicdata, a, b, s, t, x, y, u, v, yes == 1.0, "range check (honest)")
+            if pv0.m2 >= 0:
+                # the same attestation object again: a second challenge, another range, the own range once more
+                for step, (a2, b2) in enumerate([(a, b), (a + 1 + width, b + 1 + width), (a, b)]):
+                    alg2 = ralg.PengBaoRangeAlgorithm("r", {"r": {"algorithm": "pengbaorange", "key_size": 32,
+                                                                  "min": a2, "max": b2}})
+                    chn, _, _ = challenge_st()
+                    yes2, _ = verdict(att, chn, alg.create_challenge_response(sk, att, chn), alg2)
+                    ctx.count(f"range:history:inside-object:step{step}")
+                    if (yes2 == 1.0) != ((a2, b2) == (a, b)):
+                        ctx.oracle_fail("PengBaoPublicData.check:" + ("inside-rejected" if (a2, b2) == (a, b)
+                                                                      else "outside-accepted"),
+                                        f"check number {step + 2} on one attestation object for {value} in [{a},{b}] "
+                                        f"against [{a2},{b2}] gives {yes2}", dict(rp, a2=a2, b2=b2, position=step + 1))
             # the in-memory attestation (general denominators) and the model's construction from the same randomness
             ok_mem = att0.publicdata.check(a, b, s, t, x, y, u, v)
             if pv0.m2 >= 0 and not ok_mem:
@@ -1034,28 +1047,48 @@ def range_round(ctx: Ctx, batch: Batch, sk=None, scenario=None):
             if len(offs) > 9:
                 offs = set(rng.sample(sorted(offs), 9)) | {width + 1, -(width + 1)}
             cands += [(f"same-width{k:+d}", a + k, b + k) for k in sorted(offs)]
-            for shift, a2, b2 in cands:
-                if a2 < 0 or b2 < 1 or a2 > b2 or (a2, b2) == (a, b):
-                    continue
-                alg2 = ralg.PengBaoRangeAlgorithm("r", {"r": {"algorithm": "pengbaorange", "key_size": 32,
-                                                              "min": a2, "max": b2}})
-                pub2 = PengBaoAttestation.unserialize(att.serialize(), "r")       # what a verifier would hold
-                yes, no = verdict(pub2, ch, resp, alg2)
-                inside2 = a2 <= value <= b2
-                kind = "same-width" if shift.startswith("same-width") else shift
-                ctx.count(f"range:other-range:{kind}:{'value-inside' if inside2 else 'value-outside'}")
-                if yes != 0.0 and not inside2:
-                    ctx.oracle_fail("PengBaoPublicData.check:outside-accepted",
-                                    f"proof for {value} built for [{a},{b}] accepted by a verifier whose range is "
-                                    f"[{a2},{b2}]", dict(rp, a2=a2, b2=b2))
-                elif yes != 0.0:
-                    ctx.oracle_fail("PengBaoPublicData.check:other-range-accepted",
-                                    f"proof built for [{a},{b}] accepted as a proof for the different range "
-                                    f"[{a2},{b2}]", dict(rp, a2=a2, b2=b2))
-                if shift in ("same-a", "same-b") or shift.startswith("same-width") and rng.random() < 0.4 \
-                        or rng.random() < 0.25:
-                    add_rcheck(ctx, batch, pk, att.publicdata, a2, b2, s, t, x, y, u, v, yes == 1.0,
-                               "range check (other range)")
+            cands = [c for c in cands if not (c[1] < 0 or c[2] < 1 or c[1] > c[2] or (c[1], c[2]) == (a, b))]
+            own = ("own", a, b)
+            # Histories of checks on ONE received attestation object: the verdict of a check must depend on its
+            # arguments only, not on what was checked on that object before.
+            histories = [
+                ("own-first", PengBaoAttestation.unserialize(att.serialize(), "r"), [own, *cands, own]),
+                ("others-first", PengBaoAttestation.unserialize(att.serialize(), "r"),
+                 [*rng.sample(cands, min(5, len(cands))), own, *rng.sample(cands, min(3, len(cands)))]),
+                ("prover-object", att, [own, *rng.sample(cands, min(3, len(cands))), own]),
+            ] + [("fresh-object", PengBaoAttestation.unserialize(att.serialize(), "r"), [c])
+                 for c in rng.sample(cands, min(3, len(cands)))]
+            for hname, obj, seq in histories:
+                for pos, (shift, a2, b2) in enumerate(seq):
+                    alg2 = ralg.PengBaoRangeAlgorithm("r", {"r": {"algorithm": "pengbaorange", "key_size": 32,
+                                                                  "min": a2, "max": b2}})
+                    ch2, s_, t_ = (ch, s, t) if rng.random() < 0.5 else challenge_st()
+                    resp2 = resp if ch2 is ch else alg.create_challenge_response(sk, att, ch2)
+                    yes, no = verdict(obj, ch2, resp2, alg2)
+                    inside2 = a2 <= value <= b2
+                    kind = "same-width" if shift.startswith("same-width") else shift
+                    ctx.count(f"range:other-range:{kind}:{'value-inside' if inside2 else 'value-outside'}")
+                    ctx.count(f"range:history:{hname}:{'first' if pos == 0 else 'later'}:{'own' if shift == 'own' else 'other'}")
+                    hrp = dict(rp, a2=a2, b2=b2, history=hname, position=pos,
+                               checked_before=[[q[1], q[2]] for q in seq[:pos]])
+                    if shift == "own":
+                        if yes != 1.0 and pv0.m2 >= 0:
+                            ctx.oracle_fail("PengBaoPublicData.check:inside-rejected",
+                                            f"honest proof for {value} in [{a},{b}] rejected (history {hname}: "
+                                            f"{pos} checks with other ranges ran on the same object before)", hrp)
+                    elif yes != 0.0 and not inside2:
+                        ctx.oracle_fail("PengBaoPublicData.check:outside-accepted",
+                                        f"proof for {value} built for [{a},{b}] accepted by a verifier whose range is "
+                                        f"[{a2},{b2}] (history {hname}, {pos} earlier checks on the same object)", hrp)
+                    elif yes != 0.0:
+                        ctx.oracle_fail("PengBaoPublicData.check:other-range-accepted",
+                                        f"proof built for [{a},{b}] accepted as a proof for the different range "
+                                        f"[{a2},{b2}] (history {hname}, {pos} earlier checks)", hrp)
+                    if hname == "own-first" and (shift in ("same-a", "same-b", "own") or rng.random() < 0.3):
+                        x2, y2, rem2 = unpack_pair(resp2)
+                        u2, v2, _ = unpack_pair(rem2)
+                        add_rcheck(ctx, batch, pk, att.publicdata, a2, b2, s_, t_, x2, y2, u2, v2, yes == 1.0,
+                                   "range check (history of checks on one object)")
         else:  # tampered responses: the model predicts the verdict
             how = rng.choice(["x+1", "y-1", "u+1", "swap-xy", "neg", "other-st"])
             ctx.count(f"range:tampered:{how}")
